@@ -109,6 +109,45 @@ def remap(run):
     print(("PASS " if ok else "FAIL ") + f"C01/C11/C07 remap: base lost / joins +1 / gaps dropped -> flagged {({k: sorted(v) for k, v in flagged.items()})}")
 
 
+def reports(run):
+    from harness import c10
+    from harness import remap_engine as R
+    objs, _ = c10.export(run, 2, "SUPER_", 40, 4, 0)
+    for i, o in enumerate(objs, 1):
+        o.update(tid=i, cls="2-hap", style="hap")
+    traces = [R.run_scenario(o) for o in objs]
+    ok = [t for t in traces if t["status"] == "ok" and t.get("report")]
+    bad = copy.deepcopy(ok[:4])
+    for i, t in enumerate(bad, 1):
+        t["tid"] = i
+    bad[1]["report"][0]["lmg"] += 1                                    # sequence length of one chromosome in the report
+    bad[2]["report"][-1]["loc"] = "false" if bad[2]["report"][-1]["loc"] == "true" else "true"
+    bad[3]["sanity"]["mismatch"] = 1 - bad[3]["sanity"]["mismatch"]    # the autosome-count warning
+    jr = R.judge(run, bad, ["MODEL"], label="st-reports")
+    expect("Reports: report length +1 / localised flipped / sanity warning flipped (model drift)", jr, [2, 3, 4], kind="M")
+
+
+def cliroute(run):
+    from harness import remap_engine as R
+    inp = [{"name": "S1", "rows": [{"k": "F", "name": "S1c1", "s": 4, "e": 40, "st": 1}, {"k": "G", "name": "scaffold", "s": 1, "e": 200, "st": 0},
+                                   {"k": "F", "name": "S1c3", "s": 10, "e": 46, "st": -1}]}, {"name": "S2", "rows": [{"k": "F", "name": "S2c1", "s": 1, "e": 30, "st": 1}]}]
+    mp = [{"painted": 1, "pieces": [{"src": "S1", "a": 1, "b": 20, "st": 1, "tags": []}, {"src": "S1", "a": 21, "b": 274, "st": -1, "tags": []}]},
+          {"painted": 0, "pieces": [{"src": "S2", "a": 1, "b": 30, "st": 1, "tags": ["Haplotig"]}]}]
+    sc = {"tn": 2, "td": 1, "naming": "free", "valid": 1, "input": inp, "map": mp, "cls": "valid", "haps": ["", ""], "style": "plain", "root": str(run.sub("clir"))}
+    traces = [R.run_scenario_cli(dict(sc, tid=t)) for t in (1, 2, 3, 4)]
+    bad = copy.deepcopy(traces)
+    bad[1]["stats"]["joins"] += 1                       # the log line's join count
+    bad[2]["yaml"]["haplotig_removals"] += 1            # the info yaml's haplotig count
+    bad[3]["out"] = [o for o in bad[3]["out"] if o["asm_lc"] != "haplotig"]     # the haplotigs file left unwritten
+    jr = R.judge(run, bad, ["C01", "C11"], label="st-cli")
+    flagged = {}
+    for v in jr["V"]:
+        flagged.setdefault(v[1], set()).add(v[2])
+    ok = set(flagged) == {2, 3, 4} and "C11.joins" in flagged[2] and "C11.haplotig_removals" in flagged[3] and "C01.exact_partition" in flagged[4]
+    RESULTS.append(("cli route", ok, {k: sorted(v) for k, v in flagged.items()}, [2, 3, 4]))
+    print(("PASS " if ok else "FAIL ") + f"CLI route: log joins +1 / yaml haplotig count +1 / haplotigs file missing -> flagged {({k: sorted(v) for k, v in flagged.items()})}")
+
+
 def clobber(run):
     from harness import cli_engine as E
     root = str(run.sub("cli"))
@@ -125,7 +164,7 @@ def clobber(run):
 def main():
     run = C.Run("selftest", "quick")
     try:
-        for fn in (lookup, ovr, cache, fasta, remap, clobber):
+        for fn in (lookup, ovr, cache, fasta, remap, reports, cliroute, clobber):
             fn(run)
     finally:
         run.cleanup()
